@@ -16,7 +16,7 @@ EXTENDS JMES, Json, Toks
 
 CONSTANTS Emit, Prop, MaxLen
 
-AL == <<39, 34, 96, 92, 97, 117, 10, 1, 233, 128512, 65533, 32>>
+AL == <<39, 34, 96, 92, 97, 117, 10, 1, 233, 128512, 65533, 32, 65536, 1114111>>   \* ... U+10000 and U+10FFFF: boundary surrogate pairs
 VARIABLE s
 Init == s = <<>>
 Next == Len(s) < MaxLen /\ \E c \in 1..Len(AL) : s' = Append(s, AL[c])
